@@ -16,7 +16,7 @@ def describe(tier):
                 "ConditionFulfilledValue.__and__/__or__/__xor__; oracle = literal reference table R1 (README rows, Boolean "
                 "logic, NEUTRAL identity) + commutativity + associativity + totality + UNKNOWN soundness/tightness by brute-force "
                 "refinement of every UNKNOWN operand; every pair table is computed a second time in reverse order (no dependence on the call "
-                "history) and in 12 child interpreters started with other PYTHONHASHSEEDs (no dependence on hash randomisation); a case is non-trivial if at least one operand is UNKNOWN or NEUTRAL",
+                "history) and in 12 child interpreters started with other PYTHONHASHSEEDs, two of them with -O / -OO (no dependence on hash randomisation or on asserts being executed); a case is non-trivial if at least one operand is UNKNOWN or NEUTRAL",
         "bounds": {"pairs_per_operator": 16, "triples_per_operator": 64, "mixed_operator_triples": 9 * 64},
         "exhaustive": True,
         "assumptions": ["the state space {FULFILLED, UNFULFILLED, UNKNOWN, NEUTRAL} is the whole enum (checked)"],
@@ -24,6 +24,8 @@ def describe(tier):
 
 
 HASHSEEDS = list(range(1, 13))
+# interpreter modes of the child interpreters: hash seeds 1-10 plain, 11 with -O (asserts stripped), 12 with -OO (docstrings too)
+CHILD_FLAGS = {11: ["-O"], 12: ["-OO"]}
 
 
 def plan(tier, seed):
@@ -199,7 +201,7 @@ def _child_tables(hashseed):
     import sys
 
     src = os.environ.get("VERIF_REPO", "/repo") + "/src"
-    p = subprocess.run([sys.executable, "-W", "ignore", "-c", _CHILD, src], capture_output=True, text=True,
+    p = subprocess.run([sys.executable, "-W", "ignore"] + CHILD_FLAGS.get(hashseed, []) + ["-c", _CHILD, src], capture_output=True, text=True,
                        env=dict(os.environ, PYTHONHASHSEED=str(hashseed)), timeout=120)
     if p.returncode != 0:
         raise RuntimeError("child interpreter failed: " + p.stderr[-300:])
